@@ -77,6 +77,19 @@ def cases(tier, seed):
                         chunk = ops[:2] + ops[2 + i:2 + i + 400] if i else ops[:402]
                         cs.append(Case("t%d" % n, chunk, ("typed", ty, cname)))
                         n += 1
+        # state left behind by OTHER operations must not change what a set does: sanitise runs that are cut short
+        # (a register of a second area cannot be written back), refused block writes, failing iteration callbacks
+        for cname in ("fail", "range", "trivial"):
+            chk = cks[cname]
+            for second in ("26:3:rw:CR-", "26:3:rw:M", "26:3:rw:CRW"):
+                ents = "u16:16:1111:t|%s:18:%s:%s|u16:26:0200:r0100-0300" % (ty, default_for(ty, chk), chk)
+                ops = ["rt.table %d 16:8:rw:M|%s %s" % (rnd.randint(0, 1), second, ents), "rt.init", "rt.get 1"]
+                for v in values(ty, rnd, 2)[:: (3 if tier == "quick" else 1)]:
+                    pre = rnd.choice([["rt.poke 1 0 ffff", "rt.sanitise"], ["rt.poke 0 2 7ff87ff8", "rt.sanitise"], ["rt.sanitise"],
+                                      ["rt.bwrite 25 00010002"], ["rt.foreach 16 12 0,-1"], ["rt.bset 2 u16 8000"], []])
+                    ops += pre + ["rt.%s 1 %s %s" % (rnd.choice(["set", "set", "setu"]), ty, hexv(ty, v)), "rt.get 1"]
+                cs.append(Case("t%d" % n, ops, ("typed", ty, "interference")))
+                n += 1
         # areas that cannot be written / uninitialised table
         for akind in ("nowrite", "ro-flag"):
             ops = [table_line(0, akind, ty, "t"), "rt.set 1 %s %s" % (ty, hexv(ty, 5)), "rt.get 1", "rt.init",
